@@ -13,11 +13,16 @@ def import_obj(path : str):
         output = parse_obj_data(objf.readlines())
     return output
 
-def parse_vertex( vstr ):
+def _obj_index( istr, n ):
+    # indices start at 1 ; a negative index counts backwards from the last of the n elements read so far
+    i = int(istr)
+    return i-1 if i>0 else n+i
+
+def parse_vertex( vstr, nv=0, nt=0, nn=0 ):
     vals = vstr.split('/')
-    vid = int(vals[0])-1
-    tid = int(vals[1])-1 if len(vals)>1 and vals[1] else -1
-    nid = int(vals[2])-1 if len(vals) > 2 else -1
+    vid = _obj_index(vals[0], nv)
+    tid = _obj_index(vals[1], nt) if len(vals)>1 and vals[1] else -1
+    nid = _obj_index(vals[2], nn) if len(vals) > 2 else -1
     return (vid,tid,nid) 
 
 def parse_obj_data(data):
@@ -35,11 +40,12 @@ def parse_obj_data(data):
         elif toks[0] == 'vt':
             uv_coords.append( Vec([float(toks[1]), float(toks[2])]) )
         elif toks[0] == 'f':
-            faces.append([ parse_vertex(vstr) for vstr in toks[1:] ])
+            faces.append([ parse_vertex(vstr, len(obj.vertices), len(uv_coords), len(normals)) for vstr in toks[1:] ])
         elif toks[0] == 'l':
-            v1,v2 = int(toks[1])-1, int(toks[2])-1
-            e = keyify(v1,v2)
-            obj.edges.append(e)
+            # a line element is a polyline : l v1 v2 v3 ... (each vertex possibly written v/vt)
+            line = [ _obj_index(vstr.split('/')[0], len(obj.vertices)) for vstr in toks[1:] ]
+            for v1,v2 in zip(line, line[1:]):
+                obj.edges.append(keyify(v1,v2))
 
     normals_attr = obj.vertices.create_attribute("normals", float, 3)
     uv_attr = obj.face_corners.create_attribute("uv_coords", float, 2)
